@@ -71,7 +71,11 @@ fn main() {
                 usage();
             }
             let tier = match args.get(3).map(|s| s.as_str()).or(std::env::var("VERIF_TIER").ok().as_deref()) {
-                Some("thorough") => Tier::Thorough,
+                Some("thorough") => {
+                    // deep levels legitimately build large accumulators in the workers
+                    isolate::HEADROOM_GIB.store(12, std::sync::atomic::Ordering::Relaxed);
+                    Tier::Thorough
+                }
                 _ => Tier::Quick,
             };
             let scratch = verif_dir.join("target/scratch").join(format!("{}-{}", args[2], std::process::id()));
